@@ -165,6 +165,7 @@ func init() {
 		ID: "C01", Level: "model_checking", Summaries: true, Rule: stateRule,
 		Scenarios: func(c *CheckRun) []*Scenario {
 			out := withMask(histFamilies(c, true), ckMap, nil)
+			out = append(out, fanKinds(c, ckMap, c.Tier != "quick")...)
 			out = append(out, k0Scenarios(ckMap|ckSize)...)
 			return out
 		},
@@ -174,6 +175,7 @@ func init() {
 		ID: "C02", Level: "model_checking", Summaries: true, Rule: stateRule,
 		Scenarios: func(c *CheckRun) []*Scenario {
 			out := withMask(histFamilies(c, true), ckIter, nil)
+			out = append(out, fanKinds(c, ckIter, c.Tier != "quick")...)
 			out = append(out, k0Scenarios(ckIter)...)
 			return out
 		},
@@ -183,6 +185,7 @@ func init() {
 		ID: "C06", Level: "model_checking", Summaries: true, Rule: stateRule,
 		Scenarios: func(c *CheckRun) []*Scenario {
 			out := withMask(histFamilies(c, true), ckSize|ckIter, nil)
+			out = append(out, fanKinds(c, ckSize|ckIter, c.Tier != "quick")...)
 			out = append(out, k0Scenarios(ckSize|ckIter)...)
 			return out
 		},
@@ -191,14 +194,14 @@ func init() {
 	register(&CheckSpec{
 		ID: "C05", Level: "model_checking", Summaries: true, Rule: stateRule,
 		Scenarios: func(c *CheckRun) []*Scenario {
-			return withMask(cheapBig(histFamiliesW(c, true, true)), ckExt, nil)
+			return append(withMask(cheapBig(histFamiliesW(c, true, true)), ckExt, nil), fanKinds(c, ckExt, false)...)
 		},
 		Bounds: append([]string{"Minimum/Maximum and BottomK(n)/TopK(n) with a fully symbolic 64-bit n after every history"}, commonBounds...), Outside: commonOutside, Assumptions: commonAssume,
 	})
 	register(&CheckSpec{
 		ID: "C11", Level: "model_checking", Summaries: true, Rule: stateRule,
 		Scenarios: func(c *CheckRun) []*Scenario {
-			return withMask(histFamilies(c, true), ckShape, nil)
+			return append(withMask(histFamilies(c, true), ckShape, nil), fanKinds(c, ckShape, c.Tier != "quick")...)
 		},
 		Bounds: append([]string{"wellFormed (harness walker over the real node structures) asserted after every single operation"}, commonBounds...), Outside: commonOutside, Assumptions: commonAssume,
 	})
